@@ -83,9 +83,7 @@ uint32_t SLL::header_size() const {
 void SLL::write_serialization(uint8_t* buffer, uint32_t total_sz) {
     OutputMemoryStream stream(buffer, total_sz);
     if (inner_pdu()) {
-        Constants::Ethernet::e flag = Internals::pdu_flag_to_ether_type(
-            inner_pdu()->pdu_type()
-        );
+        Constants::Ethernet::e flag = Internals::pdu_to_ether_type(*inner_pdu());
         protocol(static_cast<uint16_t>(flag));
     }
     stream.write(header_);
